@@ -23,9 +23,10 @@
 (***************************************************************************)
 EXTENDS Integers, Sequences, FiniteSets, TLC, Json
 
-CONSTANTS MaxLen
-VARIABLES content,     \* content[i][n] : version held by loader i (0 = absent)
-          mtime,       \* mtime[n] : modification time in L2
+CONSTANTS MaxLen,
+          TwoPaths     \* TRUE: the timestamp-aware loader is a file-system loader with two search paths (slots 2 and 3)
+VARIABLES content,     \* content[i][n] : version held by loader i / by search path i of the file-system loader (0 = absent)
+          mtime,       \* mtime[i][n] : modification time of n in slot i (timestamp-aware slots)
           loads,       \* loads[i][n] : Load calls loader i has seen for n
           cache,       \* cache[n] : [ver, from, lastMod] ; ver = 0 : not cached
           cacheOn, autoReload,
@@ -33,16 +34,19 @@ VARIABLES content,     \* content[i][n] : version held by loader i (0 = absent)
           hist
 vars == <<content, mtime, loads, cache, cacheOn, autoReload, clock, hist>>
 
-Loaders == {1, 2}
-TsAware(i) == i = 2
+\* slot 1: the plain loader; slot 2: the timestamp-aware loader (its first search path); slot 3: its second search path
+Slots == IF TwoPaths THEN {1, 2, 3} ELSE {1, 2}
+Loaders == {1, 2}                       \* what the engine sees (Load-call counters are per loader)
+LoaderOf(i) == IF i = 1 THEN 1 ELSE 2
+TsAware(i) == i \in {2, 3}
 RegNames == {"r1", "m1"}
-LoaderNamesOf(i) == IF i = 1 THEN {"l1", "m1"} ELSE {"l1", "l2", "m1"}
+LoaderNamesOf(i) == IF i = 1 THEN {"l1", "m1"} ELSE IF i = 2 THEN {"l1", "l2", "m1"} ELSE {"l2", "m1"}
 Names == {"r1", "l1", "l2", "m1"}
 Vers == {1, 2}
 NoEntry == [ver |-> 0, from |-> 0, lastMod |-> 0]
 
-Init == /\ content = [i \in Loaders |-> [n \in Names |-> 0]]
-        /\ mtime = [n \in Names |-> 0]
+Init == /\ content = [i \in Slots |-> [n \in Names |-> 0]]
+        /\ mtime = [i \in Slots |-> [n \in Names |-> 0]]
         /\ loads = [i \in Loaders |-> [n \in Names |-> 0]]
         /\ cache = [n \in Names |-> NoEntry]
         /\ cacheOn = TRUE /\ autoReload = FALSE /\ clock = 1
@@ -52,16 +56,16 @@ Init == /\ content = [i \in Loaders |-> [n \in Names |-> 0]]
 Observation(served, cache2, loads2) ==
     [served |-> served, loads |-> loads2, cached |-> {n \in Names : cache2[n].ver # 0}]
 
-\* first loader in registration order that has n (0: none)
-FirstWith(n) == IF content[1][n] # 0 THEN 1 ELSE IF content[2][n] # 0 THEN 2 ELSE 0
-\* Load calls made while looking for n: every loader up to and including the winner
+\* first slot in registration / search-path order that has n (0: none)
+FirstWith(n) == IF content[1][n] # 0 THEN 1 ELSE IF content[2][n] # 0 THEN 2 ELSE IF TwoPaths /\ content[3][n] # 0 THEN 3 ELSE 0
+\* Load calls made while looking for n: every loader up to and including the winner's
 ReadsFor(n) == LET w == FirstWith(n) IN
-               [i \in Loaders |-> [m \in Names |-> loads[i][m] + (IF m = n /\ (w = 0 \/ i <= w) THEN 1 ELSE 0)]]
+               [i \in Loaders |-> [m \in Names |-> loads[i][m] + (IF m = n /\ (w = 0 \/ i <= LoaderOf(w)) THEN 1 ELSE 0)]]
 
 \* does the cached entry have to be reloaded?
 Stale(n) == /\ autoReload
             /\ cache[n].from # 0 /\ TsAware(cache[n].from)
-            /\ (content[cache[n].from][n] = 0 \/ mtime[n] > cache[n].lastMod)
+            /\ (content[cache[n].from][n] = 0 \/ mtime[cache[n].from][n] > cache[n].lastMod)
 
 Render(n) ==
     /\ (n \in RegNames /\ FirstWith(n) = 0 => cacheOn)          \* see header: registered-only names need the cache
@@ -78,7 +82,7 @@ Render(n) ==
                     /\ hist' = Append(hist, [op |-> "render", n |-> n, obs |-> Observation(0, cache, rd)])
                     /\ UNCHANGED <<content, mtime, cache, cacheOn, autoReload, clock>>
                ELSE \* P2 / P3a / P5: (re)load from the first loader that has it
-                    LET entry == [ver |-> content[w][n], from |-> w, lastMod |-> IF TsAware(w) THEN mtime[n] ELSE 0]
+                    LET entry == [ver |-> content[w][n], from |-> w, lastMod |-> IF TsAware(w) THEN mtime[w][n] ELSE 0]
                         c2 == IF cacheOn THEN [cache EXCEPT ![n] = entry] ELSE cache
                     IN /\ loads' = rd
                        /\ cache' = c2
@@ -93,16 +97,21 @@ Register(n, v) ==
     /\ UNCHANGED <<content, mtime, loads, cacheOn, autoReload>>
 
 \* a content change always raises the time stamp (a change with an equal stamp is undetectable by design)
+\* every write to a file gets a time stamp newer than every stamp the name has had.  A file may be put into the first
+\* search path only while the second does not hold the name: which copy a file-system loader that has already served
+\* the back copy prefers when a front copy appears later is not stated anywhere.
+NewestStamp(n) == LET S == {mtime[j][n] : j \in Slots \ {1}} IN CHOOSE m \in S : \A x \in S : x <= m
 Put(i, n, v) ==
-    /\ n \in LoaderNamesOf(i) /\ content[i][n] # v
+    /\ i \in Slots /\ n \in LoaderNamesOf(i) /\ content[i][n] # v
+    /\ (TwoPaths /\ i = 2 => content[3][n] = 0)
     /\ content' = [content EXCEPT ![i][n] = v]
-    /\ mtime' = IF TsAware(i) THEN [mtime EXCEPT ![n] = mtime[n] + 1] ELSE mtime
-    /\ hist' = Append(hist, [op |-> "put", i |-> i, n |-> n, v |-> v, mt |-> mtime'[n], obs |-> Observation(-1, cache, loads)])
+    /\ mtime' = IF TsAware(i) THEN [mtime EXCEPT ![i][n] = NewestStamp(n) + 1] ELSE mtime
+    /\ hist' = Append(hist, [op |-> "put", i |-> i, n |-> n, v |-> v, mt |-> mtime'[i][n], obs |-> Observation(-1, cache, loads)])
     /\ UNCHANGED <<loads, cache, cacheOn, autoReload, clock>>
-\* deleting from the timestamp-aware loader what is currently cached from it is left out (what a later auto-reload
-\* does with a template whose file vanished is not stated); everything else may vanish
+\* a deletion is a change like any other: with auto-reload on the next call sees it (and serves what the loaders
+\* then have, or reports not-found and leaves the cache alone)
 Delete(i, n) ==
-    /\ content[i][n] # 0 /\ (i = 2 => ~(cache[n].ver # 0 /\ cache[n].from = 2))
+    /\ i \in Slots /\ content[i][n] # 0
     /\ content' = [content EXCEPT ![i][n] = 0]
     /\ hist' = Append(hist, [op |-> "delete", i |-> i, n |-> n, obs |-> Observation(-1, cache, loads)])
     /\ UNCHANGED <<mtime, loads, cache, cacheOn, autoReload, clock>>
@@ -125,8 +134,8 @@ Next ==
     /\ Len(hist) < MaxLen
     /\ \/ \E n \in Names : Render(n)
        \/ \E n \in RegNames : \E v \in Vers : Register(n, v)
-       \/ \E i \in Loaders : \E n \in Names : \E v \in Vers : Put(i, n, v)
-       \/ \E i \in Loaders : \E n \in Names : Delete(i, n)
+       \/ \E i \in Slots : \E n \in Names : \E v \in Vers : Put(i, n, v)
+       \/ \E i \in Slots : \E n \in Names : Delete(i, n)
        \/ \E b \in BOOLEAN : SetCache(b) \/ SetAutoReload(b) \/ SetDevMode(b)
 Spec == Init /\ [][Next]_vars
 
@@ -141,7 +150,7 @@ P4 == [][IsRender /\ cacheOn /\ ~autoReload /\ cache[Last.n].ver # 0 => (Last.ob
 P5 == [][IsRender /\ ~cacheOn /\ content[1][Last.n] # 0 => Last.obs.served = content[1][Last.n]]_vars
 P6 == [][IsRender /\ Last.obs.served = 0 => cache' = cache]_vars
 P1 == [][(hist' # hist /\ Last.op = "register") => cache'[Last.n].ver = Last.v]_vars
-TypeOK == \A n \in Names : cache[n].ver # 0 => (cache[n].from = 0 \/ cache[n].from \in Loaders)
+TypeOK == \A n \in Names : cache[n].ver # 0 => (cache[n].from = 0 \/ cache[n].from \in Slots)
 
 Complete == Len(hist) = MaxLen /\ hist[MaxLen].op = "render"
 OpTags == {hist[i].op : i \in 1..Len(hist)}
